@@ -73,6 +73,7 @@ FIELD_CLASSES_BY_CLASS = {
     ("CodeBlock", "decode_mode"): ("CodeBlock.DecodeMode", "enum"),
     ("Module", "isa"): ("Module.ISA", "enum"), ("Module", "file_format"): ("Module.FileFormat", "enum"),
     ("Module", "byte_order"): ("Module.ByteOrder", "enum"), ("Module", "entry_point"): "CodeBlock",
+    ("Symbol", "__payload"): None,
     ("SymAddrConst", "symbol"): "Symbol", ("SymAddrAddr", "symbol1"): "Symbol", ("SymAddrAddr", "symbol2"): "Symbol",
     ("Section", "_interval_index"): ("LazyIntervalTree", "ByteInterval"),
     ("ByteInterval", "_interval_tree"): ("LazyIntervalTree", "ByteBlock"),
@@ -331,6 +332,12 @@ class Schema:
             return self.pb.sub_get(eng, obj, attr, st)
         if obj.k in ("pbrep", "pbmap", "blob"):
             return SV("boundbuiltin", x=(obj, attr))
+        if obj.k == "val" and obj.cls is None and attr == "value":
+            # .value of a dynamically typed enum member
+            st.oblige("safety.is_enum_member(.value)", is_VEnum(obj.t))
+            return sv_int(enum_(obj.t))
+        if obj.k == "val" and obj.cls is None and attr == "deep_eq":
+            return SV("boundbuiltin", x=(obj, "deep_eq"))
         if obj.k == "val" and obj.cls is None and attr == "uuid":
             # .uuid of a dynamically typed node: every Node class stores it in the plain attribute set by Node.__init__
             r = eng.as_ref(obj, st, "receiver of .uuid")
@@ -369,6 +376,18 @@ class Schema:
         if obj.k == "val" and obj.cls is None and attr == "length":
             st.oblige("safety.is_interval(.length)", is_VIv(obj.t))
             return SV("boundbuiltin", x=(SV("iv", obj.t), "length"))
+        return None
+
+    def call_method_special(self, eng, obj, m, ci, args, kwargs, st):
+        if m.qual.endswith(".deep_eq") and len(args) == 1 and obj.k in ("ref", "val"):
+            # x.deep_eq(o) on a receiver whose dynamic class is not fixed by its static type (an abstract class such as
+            # Block, or a class with subclasses): dynamic dispatch.  The result is the relation DEQ(x, o), which the
+            # deep_eq contract of each concrete class characterises exactly for receivers of that class.
+            cls = eng.prog.classes.get(obj.cls) if obj.cls else None
+            has_sub = cls is None or any(cls in c.mro[1:] for c in eng.prog.classes.values())
+            if has_sub:
+                from specs.deepeq import DEQ
+                return sv_bool(DEQ(eng.as_ref(obj, st, "receiver of .deep_eq"), to_val(args[0])))
         return None
 
     def class_attr_special(self, eng, ci, attr, st):
@@ -470,6 +489,9 @@ class Schema:
                 return sv_tuple([])
             if args[0].k == "tuple":
                 return args[0]
+            if args[0].k == "list":
+                # tuple(list): an immutable copy; a tuple of symbolic length is kept in the list representation
+                return SV("list", args[0].t, x=args[0].x, cls="tuple")
             raise Unsupported("tuple(x)")
         if name == "dict":
             if not args:
@@ -652,6 +674,10 @@ class Schema:
             return self.io.stream_method(eng, obj, name, args, kwargs, st)
         if (k in ("ref", "val") and (obj.cls or "").startswith("pb:")) or k in ("pbsub", "pbrep", "pbmap"):
             return self.pb.method(eng, obj, name, args, kwargs, st)
+        if k == "val" and name == "deep_eq" and len(args) == 1:
+            # dynamic dispatch on a dynamically typed node: the relation the per-class contracts characterise
+            from specs.deepeq import DEQ
+            return sv_bool(DEQ(eng.as_ref(obj, st, "receiver of .deep_eq"), to_val(args[0])))
         if k == "blob":
             return self.io.blob_method(eng, obj, name, args, kwargs, st)
         if k in ("int", "bool") and name == "to_bytes":
